@@ -304,6 +304,7 @@ pub unsafe extern "C" fn recvmsg(fd: c_int, msg: *mut msghdr, flags: c_int) -> s
     if S.on && would_block_now(fd) {
         blocks_forever();
     }
+    EOF_RECVS = 0;
     let r = libc::syscall(libc::SYS_recvmsg, fd, msg, flags) as ssize_t;
     if S.on && r >= 0 {
         let m = &*msg;
